@@ -17,6 +17,11 @@
 //!                     Every oracle failure carries `cause=psd_lost|innovation_vanished|none`, the root cause
 //!                     evaluated on the implementation's own filter state (see `cov_indefinite`,
 //!                     `pre_cause_meas`); known findings are matched by {clause, cause}.
+//!   c06_periodic    — a real ONE-WAY `KalmanSourceController<(), FixedMeasurementNoise>` (PPS/sock) with
+//!                     `period = Some(p)` / None: wrap of innovation and state, `steer %= period`, initial
+//!                     filter wrap; same observation and oracle as c06_filter plus `per=` (the snapshot's
+//!                     period as `select` consumes it), oracle `state_wrapped` (|x0| <= p/2) and, for the
+//!                     corpus cases, `periodic_wrap_terminates` (400 ms guard thread).
 #![allow(clippy::all, clippy::pedantic)]
 
 #[path = "../common/mod.rs"]
@@ -755,9 +760,9 @@ fn cov_finite(k: &KalmanState) -> bool {
 }
 
 /// cause visible BEFORE a measurement is handed to the controller
-fn pre_cause_meas(
-    ctrl: &KalmanSourceController<NtpDuration, AveragingBuffer>,
-    m: &InternalMeasurement<NtpDuration>,
+fn pre_cause_meas<D: core::fmt::Debug + Copy + Clone + Send + 'static, N: MeasurementNoiseEstimator<MeasurementDelay = D> + Clone + Send + 'static>(
+    ctrl: &KalmanSourceController<D, N>,
+    m: &InternalMeasurement<D>,
 ) -> &'static str {
     match &ctrl.state.0 {
         SourceStateInner::Stable(f) => {
@@ -785,7 +790,7 @@ fn pre_cause_meas(
     }
 }
 
-fn pre_cause_msg(ctrl: &KalmanSourceController<NtpDuration, AveragingBuffer>) -> &'static str {
+fn pre_cause_msg<D: core::fmt::Debug + Copy + Clone + Send + 'static, N: MeasurementNoiseEstimator<MeasurementDelay = D> + Clone + Send + 'static>(ctrl: &KalmanSourceController<D, N>) -> &'static str {
     match &ctrl.state.0 {
         SourceStateInner::Stable(f) if cov_indefinite(&f.state) => "psd_lost",
         _ => "none",
@@ -794,8 +799,8 @@ fn pre_cause_msg(ctrl: &KalmanSourceController<NtpDuration, AveragingBuffer>) ->
 
 /// cause to attach to failures reported after the op, and the new sticky value (a NaN state keeps the
 /// cause that produced it; a finite state is judged on its own)
-fn post_cause(
-    ctrl: &KalmanSourceController<NtpDuration, AveragingBuffer>,
+fn post_cause<D: core::fmt::Debug + Copy + Clone + Send + 'static, N: MeasurementNoiseEstimator<MeasurementDelay = D> + Clone + Send + 'static>(
+    ctrl: &KalmanSourceController<D, N>,
     pre: &'static str,
     sticky: &mut &'static str,
 ) -> &'static str {
@@ -816,8 +821,13 @@ fn post_cause(
     cause
 }
 
-fn snapshot_line(
-    ctrl: &KalmanSourceController<NtpDuration, AveragingBuffer>,
+thread_local! {
+    /// set by the c06_periodic stream so that non-periodic one-way sources print `per=-`
+    static PRINT_PERIOD: std::cell::Cell<bool> = std::cell::Cell::new(false);
+}
+
+fn snapshot_line<D: core::fmt::Debug + Copy + Clone + Send + 'static, N: MeasurementNoiseEstimator<MeasurementDelay = D> + Clone + Send + 'static>(
+    ctrl: &KalmanSourceController<D, N>,
     run: &mut Run,
     in_q: bool,
     cause: &str,
@@ -873,6 +883,17 @@ fn snapshot_line(
                 }
             }
         }
+    }
+    if let (Some(sn), Some(per)) = (&snap, ctrl.period) {
+        // periodic sources only (two-way sources have no period): the snapshot's `period` as `select`
+        // consumes it, and the well-formedness of the wrapped state
+        s.push_str(&format!(" per={}", f64hex(per)));
+        let x0 = sn.state.state.ventry(0);
+        if in_q && x0.is_finite() && per.is_finite() && per > 0.0 && !(x0.abs() <= per / 2.0) {
+            run.oracle_fail("state_wrapped", &format!("cause={}", cause), &format!("x0={:e} period={:e}", x0, per));
+        }
+    } else if snap.is_some() && PRINT_PERIOD.with(|c| c.get()) {
+        s.push_str(" per=-");
     }
     s.push_str(&format!(" poll={}", poll));
     match observed {
@@ -1017,6 +1038,361 @@ fn exec_filter_case(ops: &[String], run: &mut Run) {
     });
 }
 
+// ------------------------------------------------------------------------------------ c06_periodic
+
+type OneWay = KalmanSourceController<(), FixedMeasurementNoise>;
+
+/// run `f` on its own thread; `None` if it has not finished after `ms` milliseconds (the thread is
+/// left running: a Rust loop cannot be cancelled)
+fn with_deadline<T: Send + 'static>(ms: u64, f: impl FnOnce() -> T + Send + 'static) -> Option<T> {
+    let (tx, rx) = std::sync::mpsc::channel();
+    std::thread::spawn(move || {
+        let _ = tx.send(f());
+    });
+    rx.recv_timeout(std::time::Duration::from_millis(ms)).ok()
+}
+
+const PERIODS: &[f64] = &[1.0, 1.0, 1.0, 0.5, 0.2, 1.5, 2.0, 1e-3, 60.0, 0.1, 3.0];
+
+fn gen_periodic_case(rng: &mut Rng, idx: u64, run: &Run) -> Vec<String> {
+    let default_cfg = rng.chance(2, 3);
+    let (min, init, max) = if default_cfg { (4, 4, 10) } else {
+        let a = rng.range(0, 10);
+        let c = rng.range(a, 17);
+        (a, rng.range(a, c), c)
+    };
+    let hyst_p = if default_cfg { 16 } else { *rng.pick(&[1i64, 2, 4, 16]) };
+    let hyst_w = if default_cfg { 16 } else { *rng.pick(&[1i64, 2, 4, 16]) };
+    let iw = if default_cfg { 1e-8 } else { *rng.pick(&[1e-8, 1e-6, 1e-10, 1e-12]) };
+    let ifu = if default_cfg { 100e-6 } else { *rng.pick(&[100e-6, 1e-3, 1e-6]) };
+    let period: Option<f64> = match idx {
+        0 | 1 => Some(1.0),
+        _ => match rng.below(10) {
+            0 => None,
+            1 => Some(f64::INFINITY),
+            _ => Some(*rng.pick(PERIODS)),
+        },
+    };
+    let prec = *rng.pick(&[1e-9f64, 1e-7, 1e-6, 1e-4, 1e-12, 1e-3]);
+    let prec = if rng.chance(1, 12) { 0.0 } else { prec };
+    let acc = *rng.pick(&[0.0f64, 1e-6, 1e-3, 0.1, 2.0]);
+    let in_q = !rng.chance(1, 8);
+    let cfg = |inq: bool| format!(
+        "ocfg min={} max={} init={} plow={} phigh={} physt={} pminw={} wlow={} whigh={} whyst={} wthr={} iw={} ifu={} medd={} prec={} acc={} period={} inq={}",
+        min, max, init, f64hex(1.0 / 3.0), f64hex(2.0 / 3.0), hyst_p, f64hex(0.1), f64hex(0.4), f64hex(0.6), hyst_w,
+        f64hex(1e-6), f64hex(iw), f64hex(ifu), dur_i64(NtpDuration::from_seconds(5.0)), f64hex(prec), f64hex(acc),
+        period.map(f64hex).unwrap_or_else(|| "-".to_string()), inq as u8
+    );
+    // ---- corpus: the loops that do not come back (bounded-time guard in the executor)
+    if idx == 0 {
+        // `correct_periodicity` on an infinite / astronomically large state never terminates (x - p == x);
+        // NaN terminates at once; 2^31 s with p = 1 s needs 2^31 iterations
+        return vec![
+            cfg(true),
+            format!("owrap x0={} x1={} p={}", f64hex(f64::NAN), f64hex(0.0), f64hex(1.0)),
+            format!("owrap x0={} x1={} p={}", f64hex(0.75), f64hex(-0.0), f64hex(1.0)),
+            format!("owrap x0={} x1={} p={}", f64hex(-3.25), f64hex(-0.0), f64hex(1.0)),
+            format!("owrap x0={} x1={} p={}", f64hex(f64::INFINITY), f64hex(0.0), f64hex(1.0)),
+            format!("owrap x0={} x1={} p={}", f64hex(2147483648.0), f64hex(0.0), f64hex(1.0)),
+        ];
+    }
+    if idx == 1 {
+        // a first measurement 2^31 s away with a 1 s period: `InitialSourceFilter::update` walks there
+        // one period at a time
+        return vec![
+            cfg(true),
+            format!("omeas mono=1000000000 lt=4294967296 off={} rdelay=0 rdisp=0 guard=1", i64::MAX),
+        ];
+    }
+    let mut ops = vec![cfg(in_q)];
+    if idx % 5 == 2 {
+        // `%` of the steering (C fmod) on its own
+        for _ in 0..8 {
+            let x = match rng.below(6) {
+                0 => f64::from_bits(*rng.pick(F64_SPECIALS)),
+                1 => f64::from_bits(rng.next_u64()),
+                _ => (rng.f64_unit() * 2.0 - 1.0) * mag(rng, -9, 12),
+            };
+            let y = match rng.below(6) {
+                0 => f64::from_bits(*rng.pick(F64_SPECIALS)),
+                1 => f64::from_bits(rng.next_u64()),
+                _ => *rng.pick(PERIODS),
+            };
+            ops.push(format!("orem x={} y={}", f64hex(x), f64hex(y)));
+        }
+    }
+    let p = period.filter(|p| p.is_finite()).unwrap_or(1.0);
+    // keep |x| / period (= iterations of the wrap loops) well below the model's budget (1e6): a filter fed half-period alternations
+    // learns a frequency of several s/s, which a long gap turns into millions of periods
+    let scenario = match rng.below(7) {
+        5 if p < 0.5 => 6,
+        x => x,
+    };
+    let n = if run.tier_thorough { rng.usize(20, 1500) } else { rng.usize(10, 220) };
+    let mut local: u64 = match rng.below(4) {
+        0 => 0,
+        1 => u64::MAX - (300u64 << 32),
+        _ => rng.next_u64(),
+    };
+    // true offset: near a wrap point, in the middle, or many periods away (bounded: <= 2e4 periods)
+    let mut theta: f64 = match scenario {
+        0 => p / 2.0 * if rng.chance(1, 2) { -1.0 } else { 1.0 },
+        1 => (rng.range(-300, 300) as f64) * p + (rng.f64_unit() - 0.5) * p,
+        2 => 0.0,
+        _ => (rng.f64_unit() * 2.0 - 1.0) * p * *rng.pick(&[0.4, 0.5, 0.6, 3.0, 40.0]),
+    };
+    if period.is_none() && scenario == 1 {
+        theta = (rng.f64_unit() * 2.0 - 1.0) * 2147483647.0;
+    }
+    let mut drift: f64 = (rng.f64_unit() * 2.0 - 1.0) * *rng.pick(&[0.0, 1e-9, 1e-6, 50e-6, 400e-6]);
+    let jitter = *rng.pick(&[0.0, 1e-9, 1e-6, 1e-4]) + if scenario == 0 { p * 1e-3 } else { 0.0 };
+    let mut spacing_exp: i64 = rng.range(-6, 10);
+    let mut recent: Vec<f64> = vec![];
+    for i in 0..n {
+        let base = if spacing_exp >= 0 { (1u64 << spacing_exp) << 32 } else { (1u64 << 32) >> (-spacing_exp) };
+        let ticks = if rng.chance(1, 30) && p >= 0.1 && scenario != 4 && scenario != 5 { gen_ticks(rng).clamp(4294968, (1u64 << 17) << 32) } else { base.max(4294968) + rng.below(1 + base / 64) };
+        if rng.chance(1, 40) {
+            spacing_exp = (spacing_exp + rng.range(-2, 2)).clamp(-10, 17);
+        }
+        let mut lt_ticks = ticks;
+        let mut mono_ns = ticks_to_ns(ticks);
+        if !in_q {
+            match rng.below(30) {
+                0 => lt_ticks = 0,
+                1 => lt_ticks = ticks.wrapping_neg(),
+                2 => mono_ns += 6_000_000_000,
+                3 => mono_ns = mono_ns.saturating_sub(5_500_000_000),
+                _ => {}
+            }
+        }
+        local = local.wrapping_add(lt_ticks);
+        let dt_s = ticks as f64 / TICKS_PER_S;
+        theta += drift * dt_s;
+        let mut off = theta + (rng.f64_unit() * 2.0 - 1.0) * jitter;
+        match scenario {
+            3 => {
+                // the measurement arrives an arbitrary whole number of periods away (what a PPS does)
+                off += (rng.range(-50, 50) as f64) * p;
+            }
+            4 => {
+                if rng.chance(1, 20) {
+                    theta += (rng.f64_unit() * 2.0 - 1.0) * p;
+                }
+            }
+            5 => {
+                if i % 2 == 1 {
+                    off += p / 2.0;
+                }
+            }
+            _ => {}
+        }
+        ops.push(format!(
+            "omeas mono={} lt={} off={} rdelay={} rdisp={}",
+            mono_ns, local, secs_to_ticks(off), secs_to_ticks(rng.f64_unit() * 0.05), secs_to_ticks(rng.f64_unit() * 0.01)
+        ));
+        recent.push(off);
+        if recent.len() > 8 {
+            recent.remove(0);
+        }
+        if i >= 8 && rng.chance(1, 10) {
+            let est: f64 = recent.iter().sum::<f64>() / recent.len() as f64;
+            if rng.chance(1, 2) {
+                // step feedback, sometimes many periods large (`steer %= period`)
+                let steer = est + if rng.chance(1, 4) { (rng.range(-1000, 1000) as f64) * p } else { 0.0 };
+                ops.push(format!("ostep s={}", f64hex(steer)));
+                let applied = match period { Some(pp) => steer % pp, None => steer };
+                if applied.is_finite() {
+                    local = ts_u64(ts(local) + NtpDuration::from_seconds(applied));
+                }
+                theta -= steer;
+                for r in recent.iter_mut() {
+                    *r -= steer;
+                }
+            } else {
+                let slope = (recent[recent.len() - 1] - recent[0]) / (recent.len() as f64 * dt_s.max(1e-3));
+                let steer = slope.clamp(-495e-6, 495e-6);
+                ops.push(format!("ofreq t={} s={}", local, f64hex(steer)));
+                drift -= steer;
+            }
+        }
+    }
+    ops
+}
+
+fn exec_periodic_case(ops: &[String], run: &mut Run) {
+    PRINT_PERIOD.with(|c| c.set(true));
+    let rt = tokio::runtime::Builder::new_current_thread()
+        .enable_time()
+        .start_paused(true)
+        .build()
+        .expect("runtime");
+    rt.block_on(async {
+        let mut source_config = SourceConfig::default();
+        let mut algo_config = AlgorithmConfig::default();
+        let mk = |a: AlgorithmConfig, s: SourceConfig, period: Option<f64>, prec: f64, acc: f64| -> OneWay {
+            KalmanSourceController::new(ClockId::new(), a, period, s, FixedMeasurementNoise { precision: prec, accuracy: acc })
+        };
+        let mut ctrl: Option<OneWay> = Some(mk(algo_config, source_config, None, 1e-6, 0.0));
+        let mut in_q = false;
+        let mut key = String::new();
+        let mut stable_updates = 0u32;
+        let mut sticky: &'static str = "none";
+        for op in ops {
+            run.begin_op(op);
+            let w: Vec<&str> = op.split_whitespace().collect();
+            match w[0] {
+                "ocfg" => {
+                    source_config.poll_interval_limits = PollIntervalLimits {
+                        min: PollInterval::from_byte(ix(&w, "min") as i8 as u8),
+                        max: PollInterval::from_byte(ix(&w, "max") as i8 as u8),
+                    };
+                    source_config.initial_poll_interval = PollInterval::from_byte(ix(&w, "init") as i8 as u8);
+                    algo_config.precision_low_probability = fx(&w, "plow");
+                    algo_config.precision_high_probability = fx(&w, "phigh");
+                    algo_config.precision_hysteresis = ix(&w, "physt") as i32;
+                    algo_config.precision_minimum_weight = fx(&w, "pminw");
+                    algo_config.poll_interval_low_weight = fx(&w, "wlow");
+                    algo_config.poll_interval_high_weight = fx(&w, "whigh");
+                    algo_config.poll_interval_hysteresis = ix(&w, "whyst") as i32;
+                    algo_config.poll_interval_step_threshold = fx(&w, "wthr");
+                    algo_config.initial_wander = fx(&w, "iw");
+                    algo_config.initial_frequency_uncertainty = fx(&w, "ifu");
+                    algo_config.meddling_threshold = dur(ix(&w, "medd"));
+                    let period = match kv(&w, "period") {
+                        Some("-") | None => None,
+                        Some(h) => Some(f64unhex(h).expect("f64 hex")),
+                    };
+                    in_q = ix(&w, "inq") == 1;
+                    ctrl = Some(mk(algo_config, source_config, period, fx(&w, "prec"), fx(&w, "acc")));
+                    sticky = "none";
+                    run.hit(match period {
+                        None => "period-none",
+                        Some(p) if p == 1.0 => "period-1s",
+                        Some(p) if p.is_infinite() => "period-inf",
+                        _ => "period-other",
+                    });
+                    run.end_op("ok");
+                }
+                "owrap" => {
+                    let st = KalmanState {
+                        state: Vector::new_vector([fx(&w, "x0"), fx(&w, "x1")]),
+                        uncertainty: Matrix::new([[0.0, 0.0], [0.0, 0.0]]),
+                        time: ts(0),
+                    };
+                    let p = fx(&w, "p");
+                    match with_deadline(400, move || st.correct_periodicity(Some(p))) {
+                        Some(r) => {
+                            run.hit("wrap-returned");
+                            run.end_op(&format!("{} {}", f64hex(r.state.ventry(0)), f64hex(r.state.ventry(1))));
+                        }
+                        None => {
+                            run.hit("wrap-TIMEOUT");
+                            // ORACLE: the periodicity loop comes back in bounded time
+                            run.oracle_fail(
+                                "periodic_wrap_terminates",
+                                "what=correct_periodicity",
+                                &format!("KalmanState::correct_periodicity(Some({:e})) with offset {:e} still running after 400 ms", p, fx(&w, "x0")),
+                            );
+                            run.end_op("timeout");
+                        }
+                    }
+                }
+                "orem" => {
+                    let (x, y) = (fx(&w, "x"), fx(&w, "y"));
+                    run.end_op(&f64hex(x % y));
+                }
+                "omeas" => {
+                    let Some(mut c) = ctrl.take() else {
+                        run.end_op("gone");
+                        continue;
+                    };
+                    let m = InternalMeasurement {
+                        delay: (),
+                        offset: dur(ix(&w, "off")),
+                        localtime: ts(ux(&w, "lt")),
+                        root_delay: dur(ix(&w, "rdelay")),
+                        root_dispersion: dur(ix(&w, "rdisp")),
+                        leap: NtpLeapIndicator::NoWarning,
+                        precision: 0,
+                    };
+                    if kv(&w, "guard") == Some("1") {
+                        // bounded-time guard (only used on a filter that is still collecting its first
+                        // samples: that path does not read the clock, so no tokio context is needed)
+                        match with_deadline(400, move || {
+                            let r = c.handle_measurement(m).is_some();
+                            (c, r)
+                        }) {
+                            Some((c2, r)) => {
+                                ctrl = Some(c2);
+                                let line = snapshot_line(ctrl.as_ref().unwrap(), run, in_q, "none");
+                                run.end_op(&format!("msg={} {}", r as u8, line));
+                            }
+                            None => {
+                                run.hit("meas-TIMEOUT");
+                                run.oracle_fail(
+                                    "periodic_wrap_terminates",
+                                    "what=initial_update",
+                                    &format!("handle_measurement with offset {} ticks still running after 400 ms", ix(&w, "off")),
+                                );
+                                run.end_op("timeout");
+                            }
+                        }
+                        continue;
+                    }
+                    tokio::time::advance(std::time::Duration::from_nanos(ux(&w, "mono"))).await;
+                    let was_stable = matches!(c.state.0, SourceStateInner::Stable(_));
+                    let pre = pre_cause_meas(&c, &m);
+                    let msg = c.handle_measurement(m);
+                    let cause = post_cause(&c, pre, &mut sticky);
+                    if cause != "none" {
+                        run.hit(if cause == "psd_lost" { "CAUSE-psd_lost(op)" } else { "CAUSE-innovation_vanished(op)" });
+                    }
+                    let is_stable = matches!(c.state.0, SourceStateInner::Stable(_));
+                    match (was_stable, is_stable, msg.is_some()) {
+                        (false, true, _) => run.hit("promoted-to-stable"),
+                        (true, false, _) => run.hit("meddling-reset"),
+                        (true, true, true) => {
+                            stable_updates += 1;
+                            run.hit("stable-absorbed")
+                        }
+                        (true, true, false) => run.hit("stable-ignored(past)"),
+                        _ => run.hit("initial"),
+                    }
+                    key.push(if msg.is_some() { 'm' } else { 'i' });
+                    let line = snapshot_line(&c, run, in_q, cause);
+                    ctrl = Some(c);
+                    run.end_op(&format!("msg={} {}", msg.is_some() as u8, line));
+                }
+                "ostep" | "ofreq" => {
+                    let Some(mut c) = ctrl.take() else {
+                        run.end_op("gone");
+                        continue;
+                    };
+                    let pre = pre_cause_msg(&c);
+                    let inner = if w[0] == "ostep" {
+                        KalmanControllerMessageInner::Step { steer: fx(&w, "s") }
+                    } else {
+                        KalmanControllerMessageInner::FreqChange { steer: fx(&w, "s"), time: ts(ux(&w, "t")) }
+                    };
+                    c.handle_message(KalmanControllerMessage { inner });
+                    let cause = post_cause(&c, pre, &mut sticky);
+                    run.hit(if w[0] == "ostep" { "step" } else { "freq" });
+                    key.push(if w[0] == "ostep" { 's' } else { 'f' });
+                    let line = snapshot_line(&c, run, in_q, cause);
+                    ctrl = Some(c);
+                    run.end_op(&line);
+                }
+                _ => run.end_op("bad-op"),
+            }
+        }
+        if stable_updates > 0 {
+            key.push_str(&format!("#{}", run_fnv(ops)));
+            run.nontrivial(&key);
+        }
+    });
+    PRINT_PERIOD.with(|c| c.set(false));
+}
+
 #[test]
 fn entry() {
     let stream = std::env::var("VERIF_STREAM").unwrap_or_default();
@@ -1038,6 +1414,12 @@ fn entry() {
             "measurement histories on a real two-way KalmanSourceController with a paused tokio clock: random walk, identical values, huge offsets (+-2^31 s), alternating outliers, delay spikes, quantised offsets, server steps; spacing 1 ms … 2^17 s; emulated Step/FreqChange feedback; 1/6 of the histories leave the quantifier (equal/backward local times, clock meddling) and are compared only; non-trivial = at least one measurement absorbed by the stable filter; distinct by op lines",
             gen_filter_case,
             exec_filter_case,
+        ),
+        "c06_periodic" => common::drive(
+            "c06_periodic",
+            "measurement histories on a real ONE-WAY KalmanSourceController<(), FixedMeasurementNoise> (PPS/sock) with period 1 s (most), 0.5/0.2/1.5/2/3/60/0.1/1e-3 s, infinite and None, on a paused tokio clock: true offset at a wrap point +-p/2, whole periods away (<= 300), measurements displaced by whole periods, half-period alternation; Step (steer %= period, also many periods) and FreqChange feedback; unit checks of f64 % and of correct_periodicity; corpus: loops that do not come back (bounded-time guard); non-trivial = a measurement absorbed by the stable filter; distinct by op lines",
+            gen_periodic_case,
+            exec_periodic_case,
         ),
         other => panic!("unknown VERIF_STREAM {:?}", other),
     }
